@@ -306,6 +306,42 @@ def main(tier, seed):
             if not (same2(got) and same2(live)) and len(direct_bad) < 4:
                 direct_bad.append({"kind": "failing-input", "why": "points with the same keys in another insertion order, written one after the other and read back, differ",
                                    "compact_key_prefixes": style, "points": want, "key_orders": [p["_order"] for p in pts], "read_back": got, "read_on_the_live_object": live})
+    # (3c) the storage option newline="\n" (no translation of line ends by the text layer, like the default ""): strings holding CR, LF, CRLF - alone,
+    # at the end of the last cell, in keys and in the measurement - written, read on the live object, after a rewrite, and after reopening
+    nl_runs = 0
+    for style in (False, True):
+        d = ck.work / f"nl{nl_runs}"
+        d.mkdir()
+        path = str(d / "db.csv")
+        texts = ["ready\r", "a\rb", "a\nb", "a\r\nb", "\r", "\n", "plain", "x\r\r\ny", "\r\n"]
+        pts = [{"time": dbgen.T0 + i * 1000000, "meas": ("m\r" if i == 4 else "m"), "tags": dict(sorted({"k": v, ("z\rk" if i == 2 else "z"): texts[-1 - i]}.items())),
+                "fields": {"n": float(i)}} for i, v in enumerate(texts)]
+        got = live = after_rewrite = None
+        try:
+            db = tf.TinyFlux(path, newline="\n")
+            try:
+                for p in pts:
+                    db.insert(M.real_point(tf, p), compact_key_prefixes=style)
+                live = [M.canon_point(q) for q in db.all(sorted=False)]
+                db.update(tf.FieldQuery().n == 0.0, fields={"n": 0.5})
+                after_rewrite = [M.canon_point(q) for q in db.all(sorted=False)]
+            finally:
+                db.close()
+            db2 = tf.TinyFlux(path, newline="\n")
+            try:
+                got = [M.canon_point(q) for q in db2.all(sorted=False)]
+            finally:
+                db2.close()
+        except Exception as e:  # noqa
+            got = ("raise", type(e).__name__, str(e)[:100])
+        nl_runs += 1
+        want2 = [dict(p, fields={"n": 0.5}) if i == 0 else p for i, p in enumerate(pts)]
+        same3 = lambda g, w: g is not None and not isinstance(g, tuple) and len(g) == len(w) and all(py_equal(a, x) for a, x in zip(w, g))
+        if not (same3(live, pts) and same3(after_rewrite, want2) and same3(got, want2)) and len(direct_bad) < 4:
+            direct_bad.append({"kind": "failing-input", "why": "points with line breaks in their strings, written to a CSV database opened with newline='\\n' and read back, differ",
+                               "storage_kwargs": {"newline": "\n"}, "compact_key_prefixes": style, "points": pts, "read_on_the_live_object": live,
+                               "read_after_an_update": after_rewrite, "read_back_after_reopening": got, "file": open(path, newline="").read()[:600] if os.path.exists(path) else None})
+    stats["newline_option_round_trips"] = nl_runs
     # (3b) the same round trip with the PROCESS in another time zone (the file holds UTC wall-clock text; nothing may depend on the local zone)
     import time as _time
     old_tz = os.environ.get("TZ")
